@@ -651,9 +651,85 @@ def check_located(case, rec):
     rec.label('zip', 'locate-weights', 'custom-index')
 
 
+
+# ---- samples assembled by hand from selections of transforms and points (Sample.new) ----------------------------------------
+
+@st.composite
+def assembled_cases(draw, tier):
+    kind = draw(st.sampled_from(['mixed', 'mixed', 'triangle', 'square', 'line']))
+    n = draw(st.integers(1, 3))
+    # a list of element numbers (reduced modulo the mesh size): any order; 'perm' makes it a full-length permutation that keeps the first and last element in place
+    sel = [draw(st.integers(0, 40)) for _ in range(draw(st.integers(1, 8)))]
+    return dict(kind=kind, n=n, sel=sel, mode=draw(st.sampled_from(['any', 'perm', 'perm-fixed-ends', 'reverse', 'unique'])), scheme=draw(st.sampled_from(['gauss', 'gauss', 'bezier', 'uniform'])),
+                degree=draw(st.integers(1, 4)), via=draw(st.sampled_from(['take', 'getitem', 'chain-take'])), custom_index=draw(st.booleans()), shuffle=[draw(st.integers(0, 1000)) for _ in range(6)])
+
+
+def check_assembled(case, rec):
+    from nutils import mesh, function, sample as _sample
+    with warnings.catch_warnings():
+        warnings.simplefilter('ignore')
+        if case['kind'] == 'line':
+            topo, x = mesh.line(case['n'] + 2)
+            x = x[numpy.newaxis]
+        else:
+            topo, x = mesh.unitsquare(case['n'] + (case['kind'] == 'square'), case['kind'])
+        nel = len(topo)
+        mode = case['mode']
+        if mode in ('any', 'unique'): idx = list(dict.fromkeys(i % nel for i in case['sel']))      # any order, no repeats: a selection of transforms refuses repeated elements
+        elif mode == 'reverse': idx = list(range(nel))[::-1]
+        else:
+            inner = list(range(1, nel - 1)) if mode == 'perm-fixed-ends' else list(range(nel))
+            # deterministic shuffle driven by the drawn integers (selection sort with generated picks)
+            pool = list(inner); out = []
+            for k in range(len(inner)):
+                out.append(pool.pop(case['shuffle'][k % 6] % len(pool)))
+            idx = ([0] + out + [nel - 1]) if mode == 'perm-fixed-ends' and nel >= 2 else out
+        if not idx: raise Discard('empty-selection')
+        degree = max(case['degree'], 2) if case['scheme'] == 'bezier' else case['degree']
+        ind = numpy.array(idx, dtype=int)
+        allpoints = topo.references.getpoints(case['scheme'], degree)
+        if case['via'] == 'take': points = allpoints.take(ind)
+        elif case['via'] == 'getitem': points = allpoints[ind]
+        else:     # through a chain of the two halves
+            h = nel // 2
+            points = (allpoints[:h] + allpoints[h:]).take(ind) if 0 < h < nel else allpoints.take(ind)
+        descr = f'Sample.new over elements {idx} of unitsquare/line {case["kind"]} n={case["n"]} ({case["scheme"]} {degree}, points via {case["via"]})'
+        try:
+            smp = _sample.Sample.new(topo.space, (topo.transforms[ind], topo.opposites[ind]), points)
+        except Exception as e:
+            raise Violation('assembled-raised', f'{descr}: {type(e).__name__}: {str(e)[:200]}', where='assembled:new:' + type(e).__name__)
+        ref = topo.sample(case['scheme'], degree)
+        f = [x, function.J(x), (x * x).sum(-1) + 1.]
+        try:
+            gx, gj, gf = [numpy.asarray(a) for a in smp.eval(f)]
+            rx, rj, rf = [numpy.asarray(a) for a in ref.eval(f)]
+        except Exception as e:
+            raise Violation('assembled-raised', f'{descr}: eval: {type(e).__name__}: {str(e)[:200]}', where='assembled:eval:' + type(e).__name__)
+        if smp.nelems != len(idx):
+            raise Violation('assembled-count', f'{descr}: nelems {smp.nelems}', where='assembled:nelems')
+        npts = [len(ref.getindex(i)) for i in idx]
+        if smp.npoints != sum(npts) or len(gx) != sum(npts):
+            raise Violation('assembled-count', f'{descr}: npoints {smp.npoints}, evaluated {len(gx)}, the selected elements have {sum(npts)}', where='assembled:npoints')
+        for k, i in enumerate(idx):
+            mine = smp.getindex(k); theirs = ref.getindex(i)
+            if len(mine) != len(theirs):
+                raise Violation('assembled-points', f'{descr}: element {k} (mesh element {i}) has {len(mine)} points, its reference defines {len(theirs)}', where='assembled:element-npoints')
+            if not (numpy.allclose(gx[mine], rx[theirs], atol=1e-13) and numpy.allclose(gj[mine], rj[theirs], atol=1e-13)):
+                raise Violation('assembled-points', f'{descr}: element {k} (mesh element {i}) evaluates the geometry at {gx[mine].tolist()[:3]}.., the element\'s own points give {rx[theirs].tolist()[:3]}..', where='assembled:coords')
+        if case['scheme'] == 'gauss':
+            want = sum(float(numpy.asarray(ref.take_elements(numpy.array([i])).integrate(f[2] * function.J(x)))) for i in idx)
+            got = float(numpy.asarray(smp.integrate(f[2] * function.J(x))))
+            if abs(got - want) > 1e-12 * (1 + abs(want)):
+                raise Violation('assembled-integral', f'{descr}: integral {got}, sum of the selected elements\' integrals {want}', where='assembled:integral')
+    rec.nontrivial = idx != sorted(idx) or len(set(idx)) < len(idx)
+    rec.label('assembled:' + case['kind'], 'assembled-mode:' + mode, 'assembled-via:' + case['via'], *(['assembled:unsorted'] if idx != sorted(idx) else []), *(['assembled:repeats'] if len(set(idx)) < len(idx) else []),
+              *(['assembled:full-length'] if len(idx) == nel else []))
+
+
 SUBS = [Sub('gauss', gauss_cases, check_gauss, {'quick': 500, 'thorough': 6000}, weight=2),
         Sub('algebra', algebra_cases, check_algebra, {'quick': 60, 'thorough': 1500}, weight=2, timeout=120),
-        Sub('located', located_cases, check_located, {'quick': 30, 'thorough': 600}, weight=1, timeout=120)]
+        Sub('located', located_cases, check_located, {'quick': 30, 'thorough': 600}, weight=1, timeout=120),
+        Sub('assembled', assembled_cases, check_assembled, {'quick': 60, 'thorough': 1500}, weight=1, timeout=120)]
 
 def _union_in_product(case, v):
     def has(t, op):
@@ -671,7 +747,7 @@ MANIFEST = dict(
     category='exploration',
     technique='property-based testing (Hypothesis) with closed-form and model oracles: quadrature schemes on generated reference elements vs closed-form monomial integrals; generated sample-algebra terms vs a reference model of (element, points, weights)',
     text='Gauss schemes of every documented degree on simplices, tensor products, refined children and affinely trimmed elements must have all points inside, weights summing to the independently computed volume and must '
-         'integrate every admissible monomial to its closed form; generated sample terms (products, sums, take_elements, subset) over line/rectilinear meshes are compared element by element with a reference model: counts, '
+         'integrate every admissible monomial to its closed form; samples assembled with Sample.new from permuted selections of transforms and points (take, index arrays, chained halves) must pair every element with its own points; generated sample terms (products, sums, take_elements, subset) over line/rectilinear meshes are compared element by element with a reference model: counts, '
          'index partition, evaluated points per element, and integrate(f)==sum w f(x). Held on everything explored.',
     note='Trusted: Dirichlet closed forms, own Gauss-Legendre/Duffy rules and polygon clipping; Hypothesis. zip, locate(weights=...) and custom index are checked by the separate sub-check "located" on 1-D/2-D meshes.',
 )
